@@ -450,6 +450,83 @@ func replayObligation(v *Verifier, res *FuncResult, o *Obligation, prop, rp, ver
 
 var _ = json.Marshal
 
+// runDriver runs a test of the replay driver of a package against the real code.
+func runDriver(v *Verifier, verifDir, rel, test string, env []string, tag string, timeout time.Duration) (string, bool, error) {
+	driver := filepath.Join(verifDir, "replay", sanitize(rel)+"_test.go")
+	if _, err := os.Stat(driver); err != nil {
+		return "", false, fmt.Errorf("no driver for package %s", rel)
+	}
+	ov := filepath.Join(verifDir, "evidence", "replay", tag+".overlay.json")
+	writeJSON(ov, map[string]any{"Replace": map[string]string{filepath.Join(v.repo, rel, "zz_verif_replay_test.go"): driver}})
+	ctx, cancel := context.WithTimeout(context.Background(), timeout+30*time.Second)
+	defer cancel()
+	cmd := exec.CommandContext(ctx, "go", "test", "-overlay", ov, "-vet=off", "-count=1", "-timeout", fmt.Sprintf("%ds", int(timeout.Seconds())), "-run", "^"+test+"$", "-v", "./"+rel)
+	cmd.Dir = v.repo
+	cmd.Env = append(append(os.Environ(), "GOFLAGS=-mod=mod", "GOPROXY=off", "GOSUMDB=off", "GOTOOLCHAIN=local"), env...)
+	outb, err := cmd.CombinedOutput()
+	return string(outb), err != nil, nil
+}
+
+type boundedSpec struct {
+	Rel  string // package directory relative to the repository root
+	Name string
+	What string
+}
+
+// runBounded runs the bounded stand-ins of a property.  They are reported under
+// coverage.bounded and are never counted as obligations of the proof.
 func runBounded(v *Verifier, ps *PropSpec, tier string, seed int, verifDir string, lines *[]string, violations *int, nReplay *int) map[string]any {
-	return nil
+	if len(ps.BoundedChecks) == 0 {
+		return nil
+	}
+	out := map[string]any{}
+	for _, b := range ps.BoundedChecks {
+		tag := fmt.Sprintf("%s-bounded-%s", ps.ID, b.Name)
+		to := 5 * time.Minute
+		if tier == "thorough" {
+			to = 40 * time.Minute
+		}
+		text, failed, err := runDriver(v, verifDir, b.Rel, "TestVerifBounded", []string{"VERIF_BOUNDED=" + b.Name, "VERIF_TIER=" + tier, fmt.Sprintf("VERIF_SEED=%d", seed)}, tag, to)
+		rec := map[string]any{"what": b.What, "label": "bounded (not counted as proved)", "package": b.Rel}
+		if err != nil {
+			rec["error"] = err.Error()
+			out[b.Name] = rec
+			continue
+		}
+		for _, l := range strings.Split(text, "\n") {
+			if i := strings.Index(l, "BOUNDED-RESULT "); i >= 0 {
+				var r map[string]any
+				if json.Unmarshal([]byte(l[i+len("BOUNDED-RESULT "):]), &r) == nil {
+					for k, val := range r {
+						rec[k] = val
+					}
+				}
+			}
+		}
+		if failed {
+			*violations++
+			*nReplay++
+			rp := filepath.Join(verifDir, "evidence", "replay", fmt.Sprintf("%s-%d.json", ps.ID, *nReplay))
+			var fails []string
+			for _, l := range strings.Split(text, "\n") {
+				if strings.Contains(l, "REPLAY-FAIL") && len(fails) < 20 {
+					fails = append(fails, strings.TrimSpace(l))
+				}
+			}
+			tail := text
+			if len(tail) > 4000 {
+				tail = tail[len(tail)-4000:]
+			}
+			writeJSON(rp, map[string]any{"property": ps.ID, "obligation": "bounded:" + b.Name, "status": "bounded check failed on the real code", "failures": fails, "output_tail": tail,
+				"replay_cmd": fmt.Sprintf("cd %s && VERIF_BOUNDED=%s VERIF_TIER=%s VERIF_SEED=%d go test -overlay %s -vet=off -count=1 -run '^TestVerifBounded$' -v ./%s", v.repo, b.Name, tier, seed, filepath.Join(verifDir, "evidence", "replay", tag+".overlay.json"), b.Rel)})
+			suffix := ""
+			if len(fails) == 0 {
+				suffix = " no-failing-input-found"
+			}
+			*lines = append(*lines, fmt.Sprintf("VIOLATION property=%s replay=%s obligation=bounded:%s%s", ps.ID, rp, b.Name, suffix))
+			rec["failed"] = true
+		}
+		out[b.Name] = rec
+	}
+	return out
 }
